@@ -11,7 +11,7 @@ ASSUMPTIONS = ['every control point / weight is its own symbol, sizes per direct
                'weights positive']
 OUTSIDE = ['sizes beyond the listed nets (the layout code does not depend on the values of the sizes beyond what the listed nets exercise; not proven for all sizes)',
            'degrees > 2']
-BOUNDS = {'quick': 'surfaces 2x3, 3x2, 3x4; volumes 2x3x4, 3x2x2 (+4x3x2 managers); rational and not; every construction / extraction direction; extract_u / extract_v options; in-place edit through the flat getter list',
+BOUNDS = {'quick': 'surfaces 2x3, 3x2, 3x4; volumes 2x3x4, 3x2x2 (+4x3x2 managers); rational and not; every construction / extraction direction; extract_u / extract_v options; in-place edit through the flat getter list; explicit rational keyword; flips with a single size given',
           'thorough': 'additional nets 4x3, 2x4x3; degree 2 in every direction'}
 
 
